@@ -277,6 +277,14 @@ class Exec:
             return ctx.const_cache[key]
         if name in ctx.extern_consts:
             return ctx.extern_consts[name]
+        mi = re.fullmatch(r"(?:core|std)::num::<impl ([iu])(8|16|32|64|128|size)>::(MIN|MAX|BITS)", name)
+        if mi:
+            signed, w = mi.group(1) == "i", 64 if mi.group(2) == "size" else int(mi.group(2))
+            if mi.group(3) == "BITS":
+                return w
+            if signed:
+                return -(1 << (w - 1)) if mi.group(3) == "MIN" else (1 << (w - 1)) - 1
+            return 0 if mi.group(3) == "MIN" else (1 << w) - 1
         ent = ctx.funcs.get(name)
         if ent is None:
             # relative names: try suffix match, and promoted of the current function
